@@ -11,7 +11,7 @@ from pyvc import nparr
 from pyvc import smt
 from pyvc import theory_cal as cal
 from pyvc.contract import Contract, LoopSpec
-from pyvc.values import DictVal, ExcVal, ListVal, Obj, Opaque, Sym, SymList, TupleVal, Unsupported
+from pyvc.values import Builtin, DictVal, ExcVal, ListVal, Obj, Opaque, Sym, SymList, TupleVal, Unsupported
 
 from .common import *  # noqa
 from .c04_periods import SAME_FAMILY_SPLITS, aligned, sub_count, sym_period, period_in_range
@@ -413,6 +413,102 @@ class SetInputDispatch(_Spread):
                 ("nothing-outside-the-request-is-written", z3.Implies(z3.Or(j < 0, j >= n), kn == env.KN(j)))]
 
 
+class HolderSetInput(Contract):
+    name = f"{HOLDER}.set_input"
+    prop = ("C16", "C14")
+    top_level = True
+    cases = tuple((rule, shape, neut) for rule in (False, True) for shape in ("one-definition-period", "longer-period", "eternity-period")
+                  for neut in (False, True))
+    descr = ("an input goes through the variable's spreading rule whenever it has one - also for a single definition period, which "
+             "is what keeps values set before from being overwritten - and is stored directly otherwise; an eternal period for a "
+             "dated variable is refused; inputs of a neutralised variable are ignored")
+    inline = ("openfisca_core.periods.helpers.period*",)
+
+    def setup(self, I, ctx, case):
+        from .c18_engine import rec
+        rule, shape, neut = case
+        calls = []
+        ruleobj = None
+        if rule:
+            def rulefn(ctx2, holder, period, array):
+                calls.append((holder, period, array))
+                return None
+            ruleobj = Builtin("set_input-rule", rulefn)
+        vcls = I.resolve_qualified("openfisca_core.variables.variable.Variable")
+        var = Obj(vcls, {"name": "v", "definition_period": dateunit(I, "month"), "is_neutralized": neut, "set_input": ruleobj,
+                         "value_type": I.builtins["float"]})
+        h = Obj(I.resolve_qualified(HOLDER), {"variable": var, "_eternal": False}, label="holder")
+        if shape == "one-definition-period":
+            p = sym_period(I, ctx, "month")
+            ctx.assume(zi(p.items[2]) == 1)
+        elif shape == "longer-period":
+            p = sym_period(I, ctx, "year")
+        else:
+            p = mk_period(I, "eternity", mk_instant(I, -1, -1, -1), -1)
+        return {"self": h, "period": p, "array": nparr.NArr(ctx.fresh_int("n"), lambda i: Sym(z3.Real("x")), "float", "input"),
+                "__calls": calls, "__case": case}
+
+    @staticmethod
+    def local_contracts():
+        from .c18_engine import rec
+        return {f"{HOLDER}._set": rec(f"{HOLDER}._set", "_set", [("return", None)])}
+
+    def post(self, I, ctx, a, out, old):
+        from .c18_engine import log_of
+        rule, shape, neut = a["__case"]
+        calls, sets = a["__calls"], log_of(ctx, "_set")
+        if shape == "eternity-period":
+            return [("eternal-period-for-a-dated-variable-refused", out[0] == "raise" and out[1].cls.name == "PeriodMismatchError"),
+                    ("nothing-stored", not calls and not sets)]
+        if neut:
+            return [("inputs-of-a-neutralised-variable-are-ignored", out[0] == "return" and not calls and not sets)]
+        if out[0] != "return":
+            return [("no-exception", False)]
+        if rule:
+            return [("spreading-rule-applied-once-whatever-the-period",
+                     len(calls) == 1 and calls[0][0] is a["self"] and calls[0][1] is a["period"] and calls[0][2] is a["array"]),
+                    ("not-stored-behind-the-rule's-back", not sets)]
+        return [("stored-directly", len(sets) == 1 and sets[0]["args"]["period"] is a["period"] and sets[0]["args"]["value"] is a["array"])]
+
+
+class SimSetInput(Contract):
+    name = "openfisca_core.simulations.simulation.Simulation.set_input"
+    prop = ("C16",)
+    top_level = True
+    cases = ("no-end", "before-end", "after-end")
+    descr = "an input is handed to the variable's holder for the period it names, unless the period starts after the variable's end date"
+    inline = ("openfisca_core.periods.helpers.period*", "openfisca_core.simulations.simulation.Simulation.get_holder",
+              "openfisca_core.simulations.simulation.Simulation.get_variable_population",
+              "openfisca_core.populations._core_population.CorePopulation.get_holder")
+
+    def setup(self, I, ctx, case):
+        from .c18_engine import World18
+        w = World18(I, ctx, "simple", 0)
+        p = sym_period(I, ctx, "month")
+        y, m, d = ymd(p.items[1])
+        if case != "no-end":
+            w.var.fields["end"] = I.dt_date_class.ns["__new_model__"](ctx, I.dt_date_class, 2015, 12, 31)
+            key = y * 10000 + m * 100 + d
+            ctx.assume(key <= 20151231 if case == "before-end" else key > 20151231)
+        return {"self": w.sim, "variable_name": "v", "period": p, "value": Opaque(None, "value", {}), "__w": w, "__case": case}
+
+    @staticmethod
+    def local_contracts():
+        from .c18_engine import rec
+        return {f"{HOLDER}.set_input": rec(f"{HOLDER}.set_input", "holder.set_input", [("return", None)])}
+
+    def post(self, I, ctx, a, out, old):
+        from .c18_engine import log_of
+        calls = log_of(ctx, "holder.set_input")
+        if out[0] != "return":
+            return [("no-exception", False)]
+        if a["__case"] == "after-end":
+            return [("input-after-the-end-date-ignored", not calls)]
+        return [("handed-to-the-variable's-holder-for-that-period",
+                 len(calls) == 1 and calls[0]["args"]["self"] is a["__w"].holder and calls[0]["args"]["array"] is a["value"] and
+                 calls[0]["args"]["period"] is a["period"])]
+
+
 def _k_bump_hook(I):
     """the ghost walking index follows the code's own step `sub_period = sub_period.offset(1)`"""
     pass
@@ -458,7 +554,7 @@ def lemmas(prop, timeout_ms):
     return recs
 
 
-CONTRACTS = [SetInputDivide(), SetInputDispatch()]
+CONTRACTS = [SetInputDivide(), SetInputDispatch(), HolderSetInput(), SimSetInput()]
 LOCAL = {HolderGetArray.name: HolderGetArray(), HolderSet.name: HolderSet(), HolderToArray.name: HolderToArray()}
-for _c in CONTRACTS:
+for _c in CONTRACTS[:2]:
     _c.local_contracts = (lambda: dict(LOCAL))
